@@ -1054,3 +1054,18 @@ package graphql
 //@   props C09
 //@   nosafety
 //@   at call dethunkMapBreadthFirst: assert arg0 == finalResults
+
+// ---- uniqueness rules (C02): a rule reports exactly when it is violated ----
+// The visitor callback of each uniqueness rule reports an error exactly when the name was recorded
+// before, records it otherwise, and the located nodes are the earlier and the current name.
+//@ func reportError
+//@   trusted
+//@   assigns class:graphql.ValidationContext, class:E|
+//@ func UniqueFragmentNamesRule$2
+//@   props C02
+//@   nosafety
+//@   assigns class:M|string|*ast.Name, class:graphql.ValidationContext, class:E|
+//@   ensures typeis(p.Node, "*ast.FragmentDefinition") && as(p.Node, "*ast.FragmentDefinition") != nil && as(p.Node, "*ast.FragmentDefinition").Name != nil && old(has(knownFragmentNames, as(p.Node, "*ast.FragmentDefinition").Name.Value)) ==> calls("reportError") == 1
+//@   ensures typeis(p.Node, "*ast.FragmentDefinition") && as(p.Node, "*ast.FragmentDefinition") != nil && as(p.Node, "*ast.FragmentDefinition").Name != nil && !old(has(knownFragmentNames, as(p.Node, "*ast.FragmentDefinition").Name.Value)) ==> calls("reportError") == 0 && has(knownFragmentNames, as(p.Node, "*ast.FragmentDefinition").Name.Value) && knownFragmentNames[as(p.Node, "*ast.FragmentDefinition").Name.Value] == as(p.Node, "*ast.FragmentDefinition").Name
+//@   ensures !typeis(p.Node, "*ast.FragmentDefinition") ==> calls("reportError") == 0
+//@   at call reportError: assert arg0 == context && len(arg2) == 2 && typeis(arg2[1], "*ast.Name") && as(arg2[1], "*ast.Name") == node.Name && typeis(arg2[0], "*ast.Name") && as(arg2[0], "*ast.Name") == nameAST
